@@ -33,7 +33,10 @@ SPEC = {
     "rule": "seed-independent part: each of the 24 fixtures and of 85 synthesized own-key transactions (5 eras x 17 body variants: no inputs, "
             "no/expired TTL, future validity start, body network id, foreign output network, output below min ada, aux-data hash without / "
             "with / with wrong aux data, a mint under a native-script policy with / without the script, a required signer with / without "
-            "its key witness) unmutated and with every single applicable mutator. Threshold mutators sit exactly on, one below and one "
+            "its key witness) unmutated and with every single applicable mutator; plus structural variants of the "
+            "synthesized transactions - every combination of the optional fields a rule's code branches on (collateral x reference "
+            "inputs, each also with mint / aux data / no TTL / validity start, and all together) - each unmutated and with one "
+            "mutator per rule that breaks that rule alone. Threshold mutators sit exactly on, one below and one "
             "above each boundary: slot = TTL-1 / TTL / TTL+1 and start-1 / start / start+1, size limit = size-1 / size / size+1, min fee = "
             "fee-1 / fee / fee+1, coins-per-byte (min utxo value) = the largest value every output meets, +1, -1, value-size limit = "
             "largest output size, +-1, 0, max ex-units = the redeemers' total, mem-1, steps-1, 0, max collateral inputs = count, "
@@ -74,7 +77,9 @@ SPEC = {
                    "check_languages dropped (babbage); check_script_data_hash dropped (conway, alonzo); check_preservation_of_value dropped "
                    "(alonzo); check_tx_ex_units dropped (babbage); check_required_signers dropped (conway); seeded C38-a (truncating "
                    "division in the Babbage minimum-collateral comparison) -> rule-not-enforced rule=fee era=babbage on "
-                   "fx:babbage.successful_mainnet_tx_with_minting colpaid=161:963973. Quiet as they must be: check_min_lovelace / "
+                   "fx:babbage.successful_mainnet_tx_with_minting colpaid=161:963973. Seeded C38-b (early return in Babbage check_all_ins_in_utxos skips the reference-input "
+                   "check when there is no collateral field) -> rule-not-enforced rule=insInUtxo era=babbage on sy:babbage:ref dropref=0. "
+                   "Quiet as they must be: check_min_lovelace / "
                    "check_output_val_size swapped, a temporary inlined in check_witness_set, check_minting dropped from validate_conway_tx "
                    "(equivalent by minting_subsumed).",
 }
